@@ -56,7 +56,14 @@ func (e *Exec) Classify(prefix string) []Finding {
 		if kind == "delete-refused-or-failed" {
 			kind += ":" + Letters(v[strings.LastIndex(v, "): ")+3:], 40)
 		}
+		if kind != "" && strings.HasPrefix(kind, "delete-refused-or-failed") && strings.Contains(e.DeleteTags, "r6pre") {
+			kind += "|r6pre"
+		}
 		out = append(out, Finding{Sig: prefix + ":" + kind, What: v})
+	}
+	after := ""
+	if e.DeleteTags != "" {
+		after = "|after-delete:" + strings.TrimSuffix(e.DeleteTags, ",")
 	}
 	for i := range e.Mismatches {
 		m := e.Mismatches[i]
@@ -72,7 +79,7 @@ func (e *Exec) Classify(prefix string) []Finding {
 		if m.Class == "error" {
 			sig = fmt.Sprintf("%s:error:%s:%s", prefix, m.Mode, Letters(m.Detail, 48))
 		}
-		out = append(out, Finding{Sig: sig, Mismatch: &m,
+		out = append(out, Finding{Sig: sig + after, Mismatch: &m,
 			What: fmt.Sprintf("read of channel %d (%s) over [%d,%d) via %s returned %d samples, model has %d: %s", m.Key, m.DT, m.A, m.B, m.Mode, m.Got, m.Want, m.Detail)})
 	}
 	return out
